@@ -5,11 +5,11 @@ NAME=$1; PROP=$2; TIER=${3:-quick}
 cd /verif
 git -C /repo diff --quiet || { echo "/repo is dirty"; exit 2; }
 git -C /repo apply /verif/seeded/$NAME/patch.diff || { echo "patch does not apply"; exit 2; }
-python3 tools/check.py $PROP --tier $TIER > /verif/.work/seed_$NAME_$PROP.log 2>&1; RC=$?
+python3 tools/check.py $PROP --tier $TIER > /verif/.work/seed_${NAME}_${PROP}.log 2>&1; RC=$?
 git -C /repo checkout -- .
 echo "check $PROP on seed $NAME: exit=$RC"
-grep -E "^(VIOLATION|KNOWN|OK|TOOL-ERROR|MODEL-DIVERGENCE)" /verif/.work/seed_$NAME_$PROP.log | head -5
-grep -E "^  " /verif/.work/seed_$NAME_$PROP.log | head -3
+grep -E "^(VIOLATION|KNOWN|OK|TOOL-ERROR|MODEL-DIVERGENCE)" /verif/.work/seed_${NAME}_${PROP}.log | head -5
+grep -E "^  " /verif/.work/seed_${NAME}_${PROP}.log | head -3
 # restore the evidence file of the unchanged tree
 git -C /verif checkout -- evidence/$PROP.json 2>/dev/null
 exit $RC
